@@ -392,6 +392,15 @@ pub fn is_brackets_string(expression: &Expression) -> bool {
         ),
         #[cfg(feature = "luau")]
         Expression::TypeAssertion { expression, .. } => is_brackets_string(expression),
+        // The expression starts with a brackets string, i.e. `[[string]] .. x`
+        Expression::BinaryOperator { lhs, .. } => is_brackets_string(lhs),
+        // Redundant parentheses around a string will be removed, i.e. `([[string]])`
+        Expression::Parentheses { expression, .. } => {
+            matches!(
+                &**expression,
+                Expression::String(_) | Expression::Parentheses { .. }
+            ) && is_brackets_string(expression)
+        }
         _ => false,
     }
 }
